@@ -194,11 +194,11 @@ def configs(rs, n, tier):
         out.append(dict(kind=kind, rows=r, cols=c, leaf=leaf, adv=bool(i % 3 == 0), rows_n=int([2, 2, 3, 4, 5][(i // 3) % 5]),
                         n=int(rs.choice([5, 12, 40, 120, 300 if tier == "thorough" else 150])), d=int(rs.randint(2, 7)),
                         min_rows=int(rs.choice([1, 4, 16, 40])), min_cols=int(rs.choice([1, 2, 3]))))
-    # wide tables most of whose columns are constant: the zero-variance features are split off first and few variables, with
+    # wide tables (10-12 columns; wider ones make the replay inside Coq slow) most of whose columns are constant: the zero-variance features are split off first and few variables, with
     # LARGE indices among them, remain (the remaining columns and their variable ids must stay aligned)
     for i in range(max(4, n // 6)):
         out.append(dict(kind=["bin", "cat", "cont"][i % 3], rows=["kmeans", "random", "gmm"][i % 3], cols=["rdc", "random"][i % 2], leaf="mle", adv=False,
-                        rows_n=2, n=int(rs.choice([40, 120])), d=int(rs.choice([10, 12, 16, 34])), min_rows=int(rs.choice([4, 16])), min_cols=1,
+                        rows_n=2, n=int(rs.choice([30, 60])), d=int(rs.choice([10, 11, 12])), min_rows=int(rs.choice([4, 16])), min_cols=1,
                         wide_keep=int(rs.choice([2, 3, 4]))))
     return out
 
